@@ -84,8 +84,24 @@ class LineProc:
         except Exception:
             return ""
 
-    def call(self, req, timeout=None):
-        """req: dict -> reply dict (with 'elapsed'), or {'crash':..} / {'timeout':True}."""
+    def call(self, req, timeout=None, _retry=True):
+        """req: dict -> reply dict (with 'elapsed'), or {'crash':..} / {'timeout':True}.
+        A deadline that passes is not yet a verdict on a loaded machine: the request is run once more,
+        alone in a fresh process, with a deadline at least six times longer; only if that expires too is
+        {'timeout': True} returned (with 'confirmed'), otherwise the second reply (marked)."""
+        r = self._call(req, timeout)
+        if _retry and "timeout" in r:
+            self.slow_retries = getattr(self, "slow_retries", 0) + 1
+            r2 = self._call(req, max(60.0, 6 * (timeout or self.timeout)))
+            if "timeout" in r2:
+                r2["confirmed"] = True
+                r2["first_elapsed"] = r.get("elapsed")
+            else:
+                r2["retried_after_timeout"] = True
+            return r2
+        return r
+
+    def _call(self, req, timeout=None):
         if self.p is None or self.p.poll() is not None:
             self._start()
         self.n += 1
